@@ -483,7 +483,8 @@ func (l *leader) setCommitIndex(index uint64) {
 		println(l, "log.Commit", index)
 	}
 	l.storage.commitLog(index)
-	if l.commitIndex < l.startIndex && index >= l.startIndex {
+	ready := l.commitIndex < l.startIndex && index >= l.startIndex
+	if ready {
 		l.logger.Info("ready for commit")
 		if tracer.commitReady != nil {
 			tracer.commitReady(l.Raft)
@@ -503,6 +504,9 @@ func (l *leader) setCommitIndex(index uint64) {
 		} else {
 			l.checkConfigActions(nil, l.configs.Latest)
 		}
+	} else if ready {
+		// config actions postponed because leader was not commit ready
+		l.checkConfigActions(nil, l.configs.Latest)
 	}
 }
 
